@@ -82,6 +82,14 @@ Theorem c10_bgsave_flag_discipline_in_source :
   Generated.rdb_bgsave_sets_flag_before_spawn = true /\ Generated.rdb_bgsave_clears_flag_after_match = true.
 Proof. exact gen_bgsave_flag_discipline. Qed.
 
+(** A SAVE (or SHUTDOWN, or a replica sync) issued while a background save is writing does not
+    share its temporary file: save() takes one lock for its whole duration and is the only caller
+    of write_snapshot - read off rdb.rs on every run.  Before aa75b1d both saves truncated and
+    wrote `dump.tmp` at once and the first to finish published the mixture. *)
+Theorem c10_saves_are_serialised_in_source :
+  Generated.rdb_save_serialised = true /\ Generated.rdb_write_snapshot_callers = [bs "save"].
+Proof. exact gen_saves_serialised. Qed.
+
 (** ---- (2) one key under a save that runs beside the command thread ----
     [snapshot_key now s0 before after]: what write_snapshot writes for a key that is in state [s0]
     when the save starts, on which the client commands [before] run before the save thread reads
